@@ -609,7 +609,7 @@ func (ex *Exec) runPath(p pending, run func()) {
 		if end.detail != "" {
 			s.End = end.reason + ": " + end.detail
 		}
-		if ex.model == nil && end.reason == "ok" {
+		if ex.model == nil && (end.reason == "ok" || end.reason == "unsupported") {
 			func() {
 				defer func() { recover() }()
 				ex.ensureModel()
